@@ -21,6 +21,9 @@ def run(prog: Program, rep: Report):
     r3_pause_resume(prog, rep, pf)
     r4_lock_regions(prog, rep, pf)
     r5_retest(prog, rep, pf)
+    from .c01 import counter_reset_per_call, feeder_early_exits
+    counter_reset_per_call(prog, rep, pf, "C02.R6")
+    feeder_early_exits(prog, rep, pf, "C02.R7")
 
 
 # ---------------------------------------------------------------------------------------------- R1
@@ -104,6 +107,9 @@ def r1_unowed_wait(prog, rep: Report, pf: PoolFacts):
                       scenario="the queue is drained between qsize() and get(): queue.Empty propagates out of imap", line=g.lineno)
             continue
         n_block += 1
+        if mode == "bounded?":
+            rep.unrec("C02.R1", f, role, f"`{src(g)}`: cannot tell whether the timeout can be None (unbounded wait)", g.lineno)
+            continue
         if mode == "bounded":
             h = _in_empty_handler(g)
             back = h is not None and not any(isinstance(n, ast.Call) and queue_call(n) and queue_call(n)[1] == "blocking"
